@@ -308,6 +308,15 @@ def install_pipeline_wrapper():
                 st_.setdefault("ghost", []).append(f"{a.name} of {a.residue} returned near {atom.name} of {atom.residue}")
                 break
         got = {id(a) for a in out}
+        # invariant of the map itself: every registered atom sits in the cell of its CURRENT coordinates
+        # (a move that bypasses the map leaves a stale registration: queries from the far side miss it)
+        for a in structure:
+            if a.cell is not None and not a.name.startswith("LP"):
+                want = tuple(_keyf(size, v) for v in a.coords)
+                if tuple(a.cell) != want:
+                    st_.setdefault("stale-registration", []).append(
+                        f"{a.name} of {a.residue} is at {[round(v, 3) for v in a.coords]} (cell {want}) but registered in cell {tuple(a.cell)}")
+                    break
         P = np.array([a.coords for a in structure]) if structure else np.zeros((0, 3))
         if len(P):
             d = np.linalg.norm(P - np.array(atom.coords), axis=1)
@@ -350,7 +359,13 @@ def pipeline_case(draw):
     desc = draw(e2e.structure(max_chains=3, nmax=5, wild=draw(st.booleans()), contact=True, waters=True))
     if not desc.get("waters"):
         desc["waters"] = [dict(draw(strat.water()), chain="W", seq=300 + k) for k in range(2)]
-    return dict(part="pipeline", desc=desc, ff=draw(st.sampled_from(["AMBER", "PARSE", "CHARMM"])),
+    tit = None
+    if draw(st.integers(0, 2)) == 0:
+        # titration route (hydrogens are stripped and rebuilt, a second debumping pass follows)
+        tit = dict(ph=draw(st.sampled_from([1.5, 4.0, 7.0, 12.5])),
+                   pka=[[ci, i, draw(st.integers(0, 1400)) / 100.0] for ci, ch in enumerate(desc["chains"])
+                        for i, rn in enumerate(ch["seq"]) if rn in ("ASP", "GLU", "HIS", "CYS", "TYR", "LYS", "ARG")])  # fmt: skip
+    return dict(part="pipeline", desc=desc, ff=draw(st.sampled_from(["AMBER", "PARSE", "CHARMM"])), tit=tit,
                 opts=draw(st.sampled_from([[], [], [], ["--noopt"], ["--nodebump"]])), every=draw(st.sampled_from([3, 5, 7])))  # fmt: skip
 
 
@@ -374,13 +389,29 @@ def check_pipeline(case):
     STATS.clear()
     STATS["every"] = case["every"]
     del c04.CALLS[:]
-    s, r = e2e.run_case(case["desc"], case["ff"], case["opts"])
+    opts = list(case["opts"])
+    if case.get("tit"):
+        from . import c06
+
+        c06.install_fake_propka()
+        c06.PKA.clear()
+        c06.TERM_ROWS.clear()
+        e2e.normalise(case["desc"], opts)
+        for ci, i, v in case["tit"]["pka"]:
+            ch = case["desc"]["chains"][ci]
+            if i < len(ch["seq"]):
+                c06.PKA[(ch["id"], ch.get("nums", [ch["start"] + k for k in range(len(ch["seq"]))])[i])] = v
+        opts += ["--titration-state-method=propka", f"--with-ph={case['tit']['ph']}"]
+        res.label("titration")
+    s, r = e2e.run_case(case["desc"], case["ff"], opts)
     audited = STATS.get("audited", 0)
     res.label("run-ok" if r.ok else "run-failed", f"opts={' '.join(case['opts']) or 'default'}",
               "debump-rotation" if c04.CALLS else "no-rotation", f"audited>={min(audited // 50 * 50, 500)}")  # fmt: skip
     for key, msgs in STATS.items():
         if key == "ghost":
             res.bad("C14:pipeline:ghost-returned", msgs[0])
+        elif key == "stale-registration":
+            res.bad("C14:pipeline:stale-registration", f"{msgs[0]} ({len(msgs)} audited queries)")
         elif key == "exhausted":
             res.bad("C14:pipeline:result-exhausted", msgs[0])
         elif key == "missing:unregistered":
